@@ -456,6 +456,65 @@ example : (⟨1 / 2, 0⟩ : GQ) + ⟨1 / 2, 0⟩ = 1 ∧ star (⟨1 / 2, 0⟩ : 
   · ext <;> norm_num
   · ext <;> simp
 
+/-! ### the amplitude threshold of `_merge_sv` ("up to the configured precision")
+
+`_probs_svd_generic` recombines the evolved tag groups of a term with
+`prob_threshold = p_threshold / (10·|c|²·prob0)`.  The four theorems below state, for every threshold
+and every pair of component lists, WHICH components the recombination may leave out and how much
+probability that is: exactly the products whose squared modulus is at most the threshold — never a
+larger one — so the mass neglected by one recombination is at most `threshold × number of products
+left out`; and a larger threshold only removes components of the whole term (nothing else changes).
+The harness evaluates the same statement on the implementation (`precision_budget`). -/
+
+/-- the thresholded recombination is the full recombination filtered by `|pa|² > threshold` -/
+theorem merge_threshold_exact (thr : ℚ) (a : AmpsF) (b : List (Fock × GQ × ℚ)) :
+    mergeSVθ thr a b = (mergeAllF a b).filter fun z => decide (thr < sqF z) :=
+  mergeSVθ_eq_filter thr a b
+
+/-- a product is left out only if its squared modulus is at most the threshold, and every product
+above the threshold is kept -/
+theorem merge_threshold_drops_only_small (thr : ℚ) (a : AmpsF) (b : List (Fock × GQ × ℚ))
+    (z : List Fock × GQ × ℚ) (hz : z ∈ mergeAllF a b) :
+    (z ∉ mergeSVθ thr a b → sqF z ≤ thr) ∧ (thr < sqF z → z ∈ mergeSVθ thr a b) := by
+  rw [mergeSVθ_eq_filter]
+  constructor
+  · intro hn
+    by_contra hlt
+    exact hn (List.mem_filter.2 ⟨hz, by simpa [keepF] using lt_of_not_ge hlt⟩)
+  · intro hlt
+    exact List.mem_filter.2 ⟨hz, by simpa [keepF] using hlt⟩
+
+/-- the probability mass neglected by one recombination is at most `threshold × #products left out` -/
+theorem merge_threshold_dropped_mass (thr : ℚ) (a : AmpsF) (b : List (Fock × GQ × ℚ)) :
+    (((mergeAllF a b).filter fun z => !keepF thr z).map sqF).sum ≤
+      thr * (((mergeAllF a b).filter fun z => !keepF thr z).length : ℚ) := by
+  have h := List.sum_le_card_nsmul (((mergeAllF a b).filter fun z => !keepF thr z).map sqF) thr
+    (by
+      intro x hx
+      obtain ⟨z, hz, rfl⟩ := List.mem_map.1 hx
+      have := (List.mem_filter.1 hz).2
+      simp only [keepF, Bool.not_eq_true', decide_eq_false_iff_not, not_lt] at this
+      exact this)
+  simpa [nsmul_eq_mul, mul_comm] using h
+
+/-- raising the threshold only removes components of the recombined term: the result at `thr'` is a
+sub-list of the result at any `thr ≤ thr'` (in particular of the un-thresholded one) -/
+theorem evolveTermθ_antitone {m : ℕ} (U : Matrix (Fin m) (Fin m) GQ) {thr thr' : ℚ} (h : thr ≤ thr')
+    (gs : List Fock) : (evolveTermθ U thr' gs).Sublist (evolveTermθ U thr gs) := by
+  rw [evolveTermθ_eq_foldl, evolveTermθ_eq_foldl]
+  exact foldl_stepθ_mono U h gs (List.Sublist.refl _) rfl
+
+/-- `merge_threshold_drops_only_small`: a product that IS left out (|1/2·1/2|² = 1/16 ≤ 1/10) next to
+one that is kept (|1·1/2|² = 1/4) -/
+example :
+    let a : AmpsF := [([[1, 0]], 1, 1), ([[0, 1]], ⟨1 / 2, 0⟩, 1)]
+    let b : List (Fock × GQ × ℚ) := [([1, 0], ⟨1 / 2, 0⟩, 1)]
+    (mergeAllF a b).length = 2 ∧ (mergeSVθ (1 / 10) a b).length = 1 := by
+  decide +kernel
+
+/-- `evolveTermθ_antitone`: `0 ≤ 1/1000000` -/
+example : (0 : ℚ) ≤ 1 / 1000000 := by norm_num
+
 /-!
 Not proved here (validated by the correspondence on every run):
 * `probsSV U [⟨1, gs⟩] ≈ probsTagged U gs` — the generic path on a Fock member equals the fast path
@@ -463,9 +522,13 @@ Not proved here (validated by the correspondence on every run):
 * `probabilityBS` (sum over `partition`s) `= get (probsTagged …)`;
 * total probability 1 for a unitary matrix (C02's `dist_sums_to_one`) — `mixture_convex` takes the
   members' unit mass as a hypothesis;
-* the internal product/amplitude thresholds of `list_tensor_product` / `_merge_sv` at a non-zero
-  precision (`innerTP θ`, `memberGenericθ`): only the input trimming of `_preprocess_svd` is bounded
-  by `trim_error_bound`; `memberGenericθ U 0 ≈ memberGeneric U` is not proved either — the
+* a bound on the OUTPUT probabilities for the internal product/amplitude thresholds of
+  `list_tensor_product` / `_merge_sv` at a non-zero precision (`innerTP θ`, `memberGenericθ`): what
+  one recombination leaves out is characterised exactly (`merge_threshold_exact`,
+  `merge_threshold_drops_only_small`, `merge_threshold_dropped_mass`, `evolveTermθ_antitone`), but the
+  propagation through the coherent sum of the terms and the final normalisation is evaluated
+  numerically per case by the harness (`precision_budget`), not proved; the input trimming of
+  `_preprocess_svd` is bounded by `trim_error_bound`; `memberGenericθ U 0 ≈ memberGeneric U` is not proved either — the
   thresholded model is executed at `θ = 0` and at the default precision and compared with the code
   (and, at `θ = 0`, with the specification inside the driver) on every case;
 * the split by photon number (`splitByN`) preserves the mixture — executed and compared only.
